@@ -276,7 +276,6 @@ static int
 scankind(struct scanner *s, struct location *loc)
 {
 	enum tokenkind tok;
-	struct location oldloc;
 
 again:
 	*loc = s->loc;
@@ -358,11 +357,11 @@ again:
 		}
 		if (s->chr != '.')
 			return TPERIOD;
-		oldloc = s->loc;
 		nextchar(s);
 		if (s->chr != '.') {
+			/* step back over the character just read, but keep the line of any backslash-newline before it */
 			ungetc(s->chr, s->file);
-			s->loc = oldloc;
+			--s->loc.col;
 			s->chr = '.';
 			return TPERIOD;
 		}
